@@ -762,7 +762,9 @@ def gen_datetime(draw, t):
     y = draw(_w(YEARS, 18)); mo = draw(_w(MONTHS, 9)); d = draw(_w(DAYS, 6)); h = draw(_w(HOURS, 5)); mi = draw(_w(MINS, 3)); s = draw(_w(SECS, 3))
     fr = draw(st.sampled_from(FRACS)); z = draw(_w(ZONES, 18))
     if h == '24' and draw(st.integers(0, 3)) != 0: mi, s = '00', '00'; fr = draw(st.sampled_from([None, '0', '000']))
-    if mo == '02' and draw(st.booleans()): d = draw(st.sampled_from(['28', '29', '30']))
+    if mo == '02' and draw(st.booleans()):
+        d = draw(st.sampled_from(['28', '29', '29', '30']))
+        if draw(st.booleans()): y = draw(st.sampled_from(['1900', '2000', '2100', '0400', '2400', '1600', '0100', '2004', '2023', '10000', '12300']))    # century rule
     sec = s + ('.' + fr if fr is not None else '')
     tm = '%s:%s:%s' % (h, mi, sec)
     lit = {'dateTime': '%s-%s-%sT%s' % (y, mo, d, tm), 'date': '%s-%s-%s' % (y, mo, d), 'time': tm, 'gYearMonth': '%s-%s' % (y, mo), 'gYear': y,
@@ -820,9 +822,9 @@ def gen_b64(draw):
         i = draw(st.integers(0, len(s) - 1))
         muts = [s[:i] + s[i + 1:], s[:i] + '-' + s[i + 1:], s[:i] + '_' + s[i + 1:], s[:i] + '=' + s[i + 1:], s + '=', s + 'A', '=' + s, s.rstrip('='), s[:i] + s[i] * 2 + s[i + 1:], s + '====', s[:i] + 'é' + s[i + 1:]]
         if s.endswith('=='):
-            muts += [s[:-3] + c + '==' for c in 'BRhx/'] * 2           # non-zero pad bits
+            muts += [s[:-3] + c + '==' for c in draw(st.lists(st.sampled_from(B64), min_size=6, max_size=6))] * 2           # pad bits: any 2nd character
         elif s.endswith('='):
-            muts += [s[:-2] + c + '=' for c in 'BCDFZ9/'] * 2
+            muts += [s[:-2] + c + '=' for c in draw(st.lists(st.sampled_from(B64), min_size=6, max_size=6))] * 2
         s = draw(st.sampled_from(muts)); labels = ['nm:b64']
     return s, labels
 
